@@ -36,6 +36,7 @@ inductive BE
   | nz (a : IxE)                  -- an integer used as a condition
   | or (a b : BE) | and (a b : BE) | not (a : BE)
   | hasEvaT                       -- `eva_t_` (a pointer) tested for non-null
+  | empty (c : Cont)              -- `c.empty()`
 deriving DecidableEq, Repr
 
 /-- recognised per-example functions -/
@@ -64,6 +65,7 @@ inductive Op0
   | moveBack (s : Cont) (f l : IxE) (d : Cont)     -- `std::move(…, back_inserter(d))`
   | erase (c : Cont) (f l : IxE)                   -- `c.erase(c.begin()+f, c.begin()+l)`
   | clear (c : Cont)
+  | cloneSchema (d s : Cont)                       -- `d.clone_schema(s)`: metadata only (columns, class labels)
   | partition (c : Cont) (x : String)              -- `x = std::partition(c.begin(), c.end(), <not selected>)`
   | forEach (c : Cont) (f : ElemFn)                -- `std::for_each(c.begin(), c.end(), f)`
   | clearEva (e : Eva)                             -- `eva_x_.clear()` / `eva_t_->clear()`
